@@ -124,6 +124,8 @@ class LocMap:
             label_to_pos: callable into mapping (can be a get() method from a dictionary)
         '''
         offset_apply = not offset is None
+        # with a negative step the (inclusive) stop label is one position beyond in the other direction
+        step_negative = isinstance(key.step, INT_TYPES) and key.step < 0
 
         for field in SLICE_ATTRS:
             attr = getattr(key, field)
@@ -186,7 +188,12 @@ class LocMap:
 
                 if field == SLICE_STOP_ATTR:
                     # loc selections are inclusive, so iloc gets one more
-                    pos += 1 #type: ignore
+                    if step_negative:
+                        pos -= 1 #type: ignore
+                        if pos < 0: #type: ignore
+                            pos = None # position 0 is included: there is no integer stop before it
+                    else:
+                        pos += 1 #type: ignore
 
                 yield pos
 
